@@ -95,6 +95,9 @@ type protoGen struct {
 	maxDepth int
 	deep     bool
 	bulky    bool
+	// wide: the program first interns well over 128 distinct symbols (so that later symbol IDs need two VarUInt
+	// octets) and draws its symbols from that larger pool.
+	wide bool
 }
 
 func (g *protoGen) inStruct() bool {
@@ -115,6 +118,10 @@ func (g *protoGen) sym() (*model.Sym, string) {
 		if g.misuse > 0 && r.Chance(1, 3) {
 			return &model.Sym{}, "none"
 		}
+	}
+	if g.wide && r.Chance(3, 4) {
+		s := model.T(fmt.Sprintf("w%d", r.Intn(220)))
+		return &s, ""
 	}
 	s := model.T(protoSymPool[r.Intn(len(protoSymPool))])
 	return &s, ""
@@ -140,6 +147,10 @@ func (g *protoGen) scalar() drive.WOp {
 		b := make([]byte, n)
 		for i := range b {
 			b[i] = byte('a' + r.Intn(26))
+			if r.Chance(1, 16) {
+				// characters the text writers must escape, some with two-character and some with four-character escapes
+				b[i] = []byte{0x01, 0x02, 0x1f, 0x0e, '\n', '\t', '"', '\'', '\\', 0x7f, 0x00, 0x0b}[r.Intn(12)]
+			}
 		}
 		switch r.Intn(4) {
 		case 0:
@@ -217,6 +228,15 @@ func (g *protoGen) program() []drive.WOp {
 		n = 3*g.maxDepth + r.Range(0, 30)
 	}
 	var ops []drive.WOp
+	if g.wide {
+		// a list of 130..200 distinct symbols first
+		ops = append(ops, drive.WOp{Op: "beginlist"})
+		for k, cnt := 0, r.Range(130, 200); k < cnt; k++ {
+			ops = append(ops, drive.WOp{Op: "symstr", Str: fmt.Sprintf("w%d", k)})
+		}
+		ops = append(ops, drive.WOp{Op: "endlist"})
+		n += len(ops)
+	}
 	miss := func() bool { return g.misuse > 0 && r.Intn(1000) < g.misuse }
 	for len(ops) < n {
 		// misuse ops
@@ -362,6 +382,9 @@ func newProtoGen(r *prng.Rand) *protoGen {
 		g.misuse = []int{0, 0, 20}[r.Intn(3)]
 	case 1, 2:
 		g.bulky = true
+	case 3:
+		g.wide = true
+		g.enabled["annot"], g.enabled["container"], g.enabled["symbol"] = true, true, true
 	}
 	return g
 }
@@ -372,7 +395,7 @@ var sharedPool = []model.Shared{
 	{Name: "other", Version: 1, Symbols: []string{"b", "name", "a b"}},
 }
 
-func protoConfigs(r *prng.Rand) []drive.WriterCfg {
+func protoConfigs(r *prng.Rand, wide bool) []drive.WriterCfg {
 	cfgs := []drive.WriterCfg{{Kind: "text"}, {Kind: "pretty"}, {Kind: "binary"}}
 	sh := []model.Shared{sharedPool[r.Intn(2)]}
 	if r.Bool() {
@@ -384,6 +407,11 @@ func protoConfigs(r *prng.Rand) []drive.WriterCfg {
 	for _, s := range protoSymPool {
 		if r.Chance(2, 3) {
 			syms = append(syms, s)
+		}
+	}
+	if wide {
+		for k := 0; k < 220; k++ {
+			syms = append(syms, fmt.Sprintf("w%d", k))
 		}
 	}
 	fixed := drive.WriterCfg{Kind: "binary-lst", LSTSymbols: syms}
@@ -646,7 +674,7 @@ func (s protocol) Run(c *Ctx, i int) {
 	r := prng.New(prng.Mix(c.Seed, 12, uint64(i)))
 	g := newProtoGen(r.Fork())
 	ops := g.program()
-	cfgs := protoConfigs(r.Fork())
+	cfgs := protoConfigs(r.Fork(), g.wide)
 	fr := r.Fork()
 	if i < 3 {
 		c.Sample(map[string]interface{}{"index": i, "ops": opNames(ops), "configs": len(cfgs)})
